@@ -216,6 +216,7 @@ class TemplateSet:
         self.literals: list[Literal] = []
         self.calls: list[tuple[str, str, list[str]]] = []     # (template, call text, guards)
         self.includes: dict[str, list[str]] = {}
+        self.macros: dict[tuple[str, str], nodes.Macro] = {}
         self.parsed: dict[str, nodes.Template] = {}
         self.tags: list[tuple[str, str, list[str], list[tuple[str, str]]]] = []
 
@@ -258,6 +259,20 @@ class TemplateSet:
                 if isinstance(item, nodes.TemplateData):
                     self.literals.append(Literal(name, item.lineno, item.data, list(guards)))
                     st = feed(st, item.data)
+                elif isinstance(item, nodes.Call) and isinstance(item.node, nodes.Name) \
+                        and (name, item.node.name) in self.macros:
+                    # {{ macro(args) }}: the macro body is written here, parameters bound like `with`
+                    mac = self.macros[(name, item.node.name)]
+                    params = [a.name for a in mac.args]
+                    binds = ', '.join(f'{p_}={expr_text(a)}' for p_, a in zip(params, item.args))
+                    binds += ''.join(f', {k.key}={expr_text(k.value)}' for k in item.kwargs)
+                    if (name, item.node.name) in active:
+                        raise AnalysisError(f'{name}:{item.lineno}: recursive macro {item.node.name}')
+                    for c in item.find_all(nodes.Call):
+                        if c is not item:
+                            self.calls.append((name, expr_text(c), list(guards)))
+                    st = self._walk(mac.body, name, root, st, guards + [f'with {binds}'],
+                                    active | {(name, item.node.name)})
                 else:
                     base, filters = split_filters(item)
                     before = items[i - 1].data if i > 0 and isinstance(items[i - 1], nodes.TemplateData) else ''
@@ -309,7 +324,12 @@ class TemplateSet:
             for c in n.node.find_all(nodes.Call):
                 self.calls.append((name, expr_text(c), list(guards)))
             return st
-        if isinstance(n, (nodes.AssignBlock, nodes.FilterBlock, nodes.Macro, nodes.CallBlock,
+        if isinstance(n, nodes.Macro):
+            if n.defaults:
+                raise AnalysisError(f'{name}:{n.lineno}: macro {n.name} with default arguments')
+            self.macros[(name, n.name)] = n
+            return st
+        if isinstance(n, (nodes.AssignBlock, nodes.FilterBlock, nodes.CallBlock,
                           nodes.Block, nodes.Extends, nodes.Import, nodes.FromImport)):
             raise AnalysisError(f'{name}:{n.lineno}: unsupported construct {type(n).__name__}')
         if isinstance(n, nodes.Scope):
